@@ -28,6 +28,26 @@ def lsum_axioms():
                       patterns=[z3.MultiPattern(lsum(a, n), lsum(b, n))])]
 
 
+def lsum_defs():
+    """the two defining equations of lsum only"""
+    return lsum_axioms()[:2]
+
+
+def lsum_congruence_induction():
+    """Proof of the congruence axiom above by induction on n, as two closed obligations over the defining equations only:
+    P(n) := forall a b. (forall i in [0,n). a[i] == b[i]) -> lsum(a,n) == lsum(b,n).   base: P(0);  step: n >= 0 and P(n) -> P(n+1)."""
+    A = z3.ArraySort(I, R)
+    a, b = z3.Consts('lc_a lc_b', A)
+    x, y = z3.Consts('lc_x lc_y', A)
+    n, i = z3.Ints('lc_n lc_i')
+    agree = lambda p, q, m: z3.ForAll([i], z3.Implies(z3.And(0 <= i, i < m), p[i] == q[i]))
+    base = (lsum_defs(), z3.Implies(agree(a, b, 0), lsum(a, 0) == lsum(b, 0)))
+    ih = z3.ForAll([x, y], z3.Implies(agree(x, y, n), lsum(x, n) == lsum(y, n)),
+                   patterns=[z3.MultiPattern(lsum(x, n), lsum(y, n))])
+    step = (lsum_defs() + [n >= 0, ih, agree(a, b, n + 1)], lsum(a, n + 1) == lsum(b, n + 1))
+    return base, step
+
+
 def sum_term(arr, n):
     """sum of arr[0..n): the recursive function lsum, or - in bounded refutation mode - the explicit ground sum"""
     if sym.BOUND is not None:
